@@ -73,12 +73,127 @@ fn dialects() -> serde_json::Value {
     }})
 }
 
+/// Static inventory of panic sites in non-test library code: every `unwrap()`/`expect()` call,
+/// panicking macro, and `[...]` index expression, keyed by (file, enclosing fn, kind, text, ordinal).
+mod panics {
+    use serde_json::{json, Value};
+    use std::collections::BTreeMap;
+    use syn::visit::Visit;
+
+    pub struct V {
+        pub file: String,
+        pub fn_stack: Vec<String>,
+        pub out: Vec<Value>,
+        pub ord: BTreeMap<String, usize>,
+        pub in_test: usize,
+    }
+    fn is_test_attr(attrs: &[syn::Attribute]) -> bool {
+        attrs.iter().any(|a| {
+            let p = a.path();
+            if p.is_ident("test") { return true; }
+            if p.is_ident("cfg") {
+                let mut t = false;
+                let _ = a.parse_nested_meta(|m| { if m.path.is_ident("test") { t = true; } Ok(()) });
+                return t;
+            }
+            false
+        })
+    }
+    impl V {
+        fn push(&mut self, kind: &str, text: String) {
+            let f = self.fn_stack.last().cloned().unwrap_or_else(|| "<top>".into());
+            let text: String = text.split_whitespace().collect::<Vec<_>>().join(" ");
+            let text = if text.len() > 90 { text[..90].to_string() } else { text };
+            let base = format!("{}::{}::{}::{}", self.file, f, kind, text);
+            let n = self.ord.entry(base.clone()).or_insert(0);
+            *n += 1;
+            self.out.push(json!({"key": format!("{}#{}", base, n), "file": self.file, "fn": f, "kind": kind, "text": text}));
+        }
+    }
+    impl<'ast> Visit<'ast> for V {
+        fn visit_item_mod(&mut self, m: &'ast syn::ItemMod) {
+            if is_test_attr(&m.attrs) { return; }
+            syn::visit::visit_item_mod(self, m);
+        }
+        fn visit_item_fn(&mut self, f: &'ast syn::ItemFn) {
+            if is_test_attr(&f.attrs) { return; }
+            self.fn_stack.push(f.sig.ident.to_string());
+            syn::visit::visit_item_fn(self, f);
+            self.fn_stack.pop();
+        }
+        fn visit_impl_item_fn(&mut self, f: &'ast syn::ImplItemFn) {
+            if is_test_attr(&f.attrs) { return; }
+            self.fn_stack.push(f.sig.ident.to_string());
+            syn::visit::visit_impl_item_fn(self, f);
+            self.fn_stack.pop();
+        }
+        fn visit_trait_item_fn(&mut self, f: &'ast syn::TraitItemFn) {
+            self.fn_stack.push(f.sig.ident.to_string());
+            syn::visit::visit_trait_item_fn(self, f);
+            self.fn_stack.pop();
+        }
+        fn visit_expr_method_call(&mut self, e: &'ast syn::ExprMethodCall) {
+            let m = e.method.to_string();
+            if m == "unwrap" || m == "expect" {
+                use quote::ToTokens;
+                self.push(&m, e.receiver.to_token_stream().to_string());
+            }
+            syn::visit::visit_expr_method_call(self, e);
+        }
+        fn visit_expr_index(&mut self, e: &'ast syn::ExprIndex) {
+            use quote::ToTokens;
+            self.push("index", e.to_token_stream().to_string());
+            syn::visit::visit_expr_index(self, e);
+        }
+        fn visit_macro(&mut self, m: &'ast syn::Macro) {
+            let name = m.path.segments.last().map(|s| s.ident.to_string()).unwrap_or_default();
+            if ["panic", "unreachable", "unimplemented", "todo", "assert", "assert_eq", "assert_ne"].contains(&name.as_str()) {
+                self.push(&format!("{}!", name), m.tokens.to_string());
+            }
+            // descend into macro arguments that are expressions (e.g. write!(f, "{}", x.unwrap()))
+            if let Ok(args) = m.parse_body_with(syn::punctuated::Punctuated::<syn::Expr, syn::Token![,]>::parse_terminated) {
+                for a in args.iter() { self.visit_expr(a); }
+            }
+        }
+    }
+    pub fn run(repo: &str) -> Value {
+        let mut files: Vec<std::path::PathBuf> = vec![];
+        fn walk(d: &std::path::Path, out: &mut Vec<std::path::PathBuf>) {
+            if let Ok(rd) = std::fs::read_dir(d) {
+                for e in rd.flatten() {
+                    let p = e.path();
+                    if p.is_dir() { walk(&p, out); } else if p.extension().map(|x| x == "rs").unwrap_or(false) { out.push(p); }
+                }
+            }
+        }
+        walk(std::path::Path::new(&format!("{repo}/src")), &mut files);
+        files.sort();
+        let mut all = vec![];
+        let mut unparsed = vec![];
+        for f in files {
+            let rel = f.strip_prefix(repo).unwrap().to_string_lossy().trim_start_matches('/').to_string();
+            if rel == "src/test_utils.rs" { continue; }
+            let src = std::fs::read_to_string(&f).unwrap();
+            match syn::parse_file(&src) {
+                Ok(file) => {
+                    let mut v = V { file: rel, fn_stack: vec![], out: vec![], ord: BTreeMap::new(), in_test: 0 };
+                    v.visit_file(&file);
+                    all.extend(v.out);
+                }
+                Err(e) => unparsed.push(format!("{rel}: {e}")),
+            }
+        }
+        json!({"sites": all, "unparsed": unparsed})
+    }
+}
+
 fn main() {
     let args: Vec<String> = std::env::args().collect();
     let what = args.get(1).map(|s| s.as_str()).unwrap_or("");
     let v = match what {
         "keywords" => keywords(),
         "dialects" => dialects(),
+        "panics" => panics::run(args.get(2).map(|s| s.as_str()).unwrap_or("/repo")),
         _ => {
             eprintln!("usage: extract keywords");
             std::process::exit(2);
